@@ -28,8 +28,10 @@ import (
 	"runtime/debug"
 	"sort"
 	"strings"
+	"sync"
 	"time"
 
+	"github.com/AdguardTeam/AdGuardDNS/internal/agd"
 	"github.com/AdguardTeam/AdGuardDNS/internal/dnsmsg"
 	"github.com/AdguardTeam/AdGuardDNS/verifh/hlib"
 	"github.com/miekg/dns"
@@ -879,6 +881,118 @@ func clonerCampaign(o *hlib.Opts, r *hlib.Result, m *hlib.Model) {
 
 func min2(a, b int) int { return min(a, b) }
 
+// humanIDCampaign: the buffer pool of agd.HumanIDParser (the device finder
+// normalises the human-readable device ID of a TLS server name or DoH path in
+// a pooled buffer).  What a parser that has served other clients returns for a
+// string must be what a new parser returns for it: identifiers and errors
+// alike; sequentially (one buffer, recycled every time) and from several
+// goroutines at once.  The expectation comes from a parser of its own per
+// string, i.e. from a buffer nobody has used.
+func humanIDCampaign(o *hlib.Opts, r *hlib.Result) {
+	rng := o.Rand("humanid")
+	alphabet := []string{"a", "b", "Z", "0", "-", "-", "!", "_", " ", "é", "'", "."}
+	gen := func() string {
+		switch rng.IntN(12) {
+		case 0:
+			return strings.Repeat("-", 1+rng.IntN(5))
+		case 1:
+			return strings.Repeat("!", 1+rng.IntN(5))
+		case 2:
+			return strings.Repeat("x", 60+rng.IntN(10)) + "!"
+		case 3:
+			return strings.Repeat("y-", 120+rng.IntN(20))
+		}
+		var sb strings.Builder
+		for n := 1 + rng.IntN(24); n > 0; n-- {
+			sb.WriteString(alphabet[rng.IntN(len(alphabet))])
+		}
+
+		return sb.String()
+	}
+	show := func(id agd.HumanID, err error) string {
+		if err != nil {
+			return "error: " + err.Error()
+		}
+
+		return "id: " + string(id)
+	}
+	rounds := 40
+	if o.Thorough() {
+		rounds = 400
+	}
+	for round := 0; round < rounds; round++ {
+		n := 2 + rng.IntN(30)
+		inputs := make([]string, n)
+		want := make([]string, n)
+		for i := range inputs {
+			inputs[i] = gen()
+			want[i] = show(agd.NewHumanIDParser().ParseNormalized(inputs[i]))
+			switch {
+			case strings.HasPrefix(want[i], "error"):
+				r.Count("humanid.not-normalizable")
+			case want[i] == "id: "+inputs[i]:
+				r.Count("humanid.valid-as-is")
+			default:
+				r.Count("humanid.normalized-in-pooled-buffer")
+			}
+		}
+		shared := agd.NewHumanIDParser()
+		fails := func(sub []int) (string, bool) {
+			p := agd.NewHumanIDParser()
+			for _, i := range sub {
+				if got := show(p.ParseNormalized(inputs[i])); got != want[i] {
+					return fmt.Sprintf("%q: a new parser gives %q, a parser that has served %d other strings gives %q", inputs[i],
+						want[i], len(sub)-1, got), true
+				}
+			}
+
+			return "", false
+		}
+		order := make([]int, n)
+		for i := range order {
+			order[i] = i
+		}
+		r.Evaluations += n
+		if _, bad := fails(order); bad {
+			small := hlib.Shrink(order, func(sub []int) bool { _, b := fails(sub); return b })
+			what, _ := fails(small)
+			var seq []string
+			for _, i := range small {
+				seq = append(seq, inputs[i])
+			}
+			r.Violate("pooled-buffer-result-depends-on-history", "HumanIDParser.ParseNormalized "+what,
+				map[string]any{"campaign": "humanid", "strings_in_order": seq})
+		}
+		// The same strings from four goroutines on one parser.
+		var wg sync.WaitGroup
+		var mu sync.Mutex
+		var firstBad string
+		for g := 0; g < 4; g++ {
+			wg.Add(1)
+			go func(g int) {
+				defer wg.Done()
+				for k := 0; k < 50; k++ {
+					i := (g*7 + k*3) % n
+					if got := show(shared.ParseNormalized(inputs[i])); got != want[i] {
+						mu.Lock()
+						if firstBad == "" {
+							firstBad = fmt.Sprintf("%q: a new parser gives %q, the shared parser gives %q", inputs[i], want[i], got)
+						}
+						mu.Unlock()
+					}
+				}
+			}(g)
+		}
+		wg.Wait()
+		r.Evaluations += 200
+		if firstBad != "" {
+			r.Violate("pooled-buffer-result-depends-on-history", "HumanIDParser.ParseNormalized, 4 goroutines: "+firstBad,
+				map[string]any{"campaign": "humanid-concurrent", "strings": inputs})
+		}
+		r.Case("humanid|"+strings.Join(inputs, "|"), true)
+	}
+}
+
 func main() {
 	if arg := os.Getenv(hotChildEnv); arg != "" {
 		hotChild(arg)
@@ -916,6 +1030,7 @@ func main() {
 	only := os.Getenv("C07_ONLY")
 	if only != "stack" && only != "hot" {
 		clonerCampaign(o, r, m)
+		humanIDCampaign(o, r)
 	}
 	if only != "cloner" && only != "hot" {
 		overlapCampaign(o, r)
@@ -924,5 +1039,10 @@ func main() {
 	if only != "cloner" && only != "stack" {
 		hotCampaign(o, r)
 	}
+	stackCountsMu.Lock()
+	for k, n := range stackCounts {
+		r.Distribution[k] += n
+	}
+	stackCountsMu.Unlock()
 	r.Finish()
 }
